@@ -52,16 +52,22 @@ def check_history(job):
                 'index points to a table that does not list it'),
         'D24': ('column listed twice', 'column in the list does not point to its table', 'index in the list does not point to its table',
                 'column points to a table that does not list it', 'index points to a table that does not list it'),
+        'D36': ('non-validation exception', 'rejected operation changed the state',
+                'iteration does not list exactly the contained tables in insertion order', 'positional lookup raised',
+                'positional lookup wrong', 'contained object does not point back to the database',
+                'name index holds a key of no contained table', 'lookup by current name fails'),
         'D25': ('contained object does not point back to the database', 'removed object still points to a database'),
     }
 
     def fail(kind, detail, cls_unused):
         cls = 'new'
-        for t in ('D6', 'D23', 'D24', 'D25'):
+        for t in ('D6', 'D36', 'D23', 'D24', 'D25'):
             if t in taints and kind in MASK[t]:
                 if t == 'D6' and kind == 'non-validation exception' and 'KeyError' not in detail:
                     continue
                 if t == 'D23' and kind == 'non-validation exception' and 'ValueError' not in detail:
+                    continue
+                if t == 'D36' and kind == 'non-validation exception' and 'KeyError' not in detail:
                     continue
                 cls = t
                 break
@@ -86,6 +92,9 @@ def check_history(job):
             taints.add('D6')
         if d23:
             taints.add('D23')
+        if op.code == 40 and isinstance(obj, Table) and obj.alias == '%s.%s' % (obj.schema, obj.name) \
+                and any(obj is t for t in spec['tables']):
+            taints.add('D36')      # delete of a contained table whose alias equals its own full name
         if op.code == 30:
             o_ = it.slots[op.args[2]]
             d_ = it.slots[op.args[1]]
